@@ -64,6 +64,7 @@ def run(ctx: Context) -> None:
     ctx.rule("C07c", "the Gaussian displacement step adds r*exp(i*phi) to the ladder-operator mean of the addressed mode")
     ctx.rule("C07d", "every gate registered with a linear step defines the block methods the step calls")
     ctx.rule("C07e", "the Gaussian update of m, C, G on the addressed modes (and of the cross blocks with the other modes) equals the update derived from a' = P a + A a^dagger and the table of second moments")
+    ctx.rule("C07f", "the steps registered for linear gates address the blocks of the requested modes in the requested order (the order rule of C16 restricted to gate steps): no sorted/unique image, no order-insensitive shortcut")
     passive_base = idx.find_class(GATES, "_PassiveLinearGate")
     active_base = idx.find_class(GATES, "_ActiveLinearGate")
     blocks: Dict[str, Dict[str, Any]] = {}
@@ -273,6 +274,7 @@ def run(ctx: Context) -> None:
                       "state._m[indices] + r * np.exp(1j * phi)")
 
     clause_e(ctx, idx)
+    clause_f(ctx, idx, reg)
 
     # ---------------- (d) exhaustiveness ------------------------------------------------------------------------------------
     n_reg = 0
@@ -446,3 +448,32 @@ def clause_e(ctx: Context, idx) -> None:
         check(f"{f.qualname}|G'[modes,aux]", f, gv[0][1], ev, want_G, "G cross block")
         check(f"{f.qualname}|C[:,modes] hermitian fill", f, cv[1][1], ev, mo.transpose(mo.conj(mo.sym("Crow"))), "C column block")
         check(f"{f.qualname}|G[:,modes] symmetric fill", f, gv[1][1], ev, mo.transpose(mo.sym("Grow")), "G column block")
+
+
+# ================================================================================================ (f)
+
+
+def clause_f(ctx: Context, idx, reg) -> None:
+    """"on any subset of modes [in any order]": the mode tuple of a linear gate reaches the index construction of
+    every registered step unchanged in order."""
+    from ..callgraph import get_resolver
+    from .C16 import scan_order
+    res = get_resolver(idx)
+    gate = idx.find_class("piquasso.api.instruction", "Gate")
+    roots = []
+    seen = set()
+    for s_ in reg.simulators:
+        for e in s_.entries:
+            if not e.instr.is_subclass_of(gate):
+                continue
+            for st in [e.step, e.factory] + list(e.factory_args.values()):
+                if st is not None and id(st.node) not in seen:
+                    seen.add(id(st.node))
+                    roots.append((st, set()))
+                    for loc in res.local_defs(st).values():
+                        roots.append((loc, set()))
+    before = len(ctx.findings)
+    n_funcs, n_uses = scan_order(ctx, res, roots, "C07f", "C07f")
+    ctx.require_floor("gate steps and helpers followed for mode order", n_funcs, 40)
+    ctx.obligation("C07f", "gate steps|requested mode order reaches the block indices",
+                   not any(f.rule == "C07f" for f in ctx.findings[before:]), functions=n_funcs, uses=n_uses)
